@@ -370,19 +370,55 @@ def bracket (cx : Ctx) (i : Nat) (a : AMode) (m : RMode) (st : St) (r : Ret) : R
   { r with raw := Ev.enter i a m (cx.rep st.cur) :: r.raw ++ [Ev.exit i r.res.code (cx.rep r.st.cur)] }
 
 /-- `tao::pegtl::match< Rule, A, M, Action, Control >( in, st... )` (match.hpp). -/
+def nodeCore (cx : Ctx) (rec : Rec) (k : Nat) (i : Nat) (nd : Node) (a : AMode) (m : RMode) (env : Env) (st : St) : Out :=
+  if !nd.ctl then
+    body cx rec k nd.kind a m env st
+  else
+    let act := cx.actOf env i nd
+    let ug := useGuard a act
+    (body cx rec k nd.kind a (if ug then .optional else m) env st).map fun r =>
+      let r := afterBody cx i a act st.cur r
+      let r := { r with raw := Ev.start i (cx.rep st.cur) :: r.raw }
+      guardRestore (if ug then .required else .optional) st.cur r
+
+/-- Ids under which the harness registers the types `limit_depth< N >` / `limit_bytes< N >`
+    (the "rule" blamed by `Control< limit_depth< N > >::raise`). -/
+def limitDepthId (n : Nat) : Nat := 1000000 + 2 * n
+def limitBytesId (n : Nat) : Nat := 1000001 + 2 * n
+
+/-- `limit_depth< N >::match`: a depth guard around `tao::pegtl::match`. -/
+def limitDepthCall (cx : Ctx) (core : St → Out) (n : Nat) (st : St) : Out :=
+  if st.depth + 1 > n then
+    let p := cx.rep st.cur
+    some ⟨.thr (.parse (limitDepthId n) p), st, [Ev.raise (limitDepthId n) p], []⟩
+  else
+    (core { st with depth := st.depth + 1 }).map fun r => { r with st := { r.st with depth := r.st.depth - 1 } }
+
+/-- `limit_bytes< N >::match`: `bytes_guard` lowers the end to `current + min( size, N )` and
+    restores it in its destructor; after a match that stopped at the lowered end while the real
+    input continues, `Control< limit_bytes >::raise`. -/
+def limitBytesCall (cx : Ctx) (core : St → Out) (n : Nat) (st : St) : Out :=
+  (core { st with endp := st.cur.pos + min st.avail n }).map fun r =>
+    let r' : Ret := { r with st := { r.st with endp := st.endp } }
+    if r.res = .ok ∧ r.st.cur.pos = r.st.endp ∧ st.endp ≠ r.st.cur.pos then
+      let p := cx.rep r.st.cur
+      { r' with res := .thr (.parse (limitBytesId n) p), raw := r.raw ++ [Ev.raise (limitBytesId n) p], surv := [] }
+    else r'
+
+/-- `Control< Rule >::match< A, M, Action, Control >( in, st... )` (normal.hpp): through
+    `Action< Rule >::match` when the action class has one, else `tao::pegtl::match`; bracketed by
+    the harness control's observations. -/
 def nodeCall (cx : Ctx) (rec : Rec) (k : Nat) (i : Nat) (a : AMode) (m : RMode) (env : Env) (st : St) : Out :=
   match cx.g[i]? with
   | none => none
   | some nd =>
-    if !nd.ctl then
-      (body cx rec k nd.kind a m env st).map (bracket cx i a m st)
-    else
-      let act := cx.actOf env i nd
-      let ug := useGuard a act
-      (body cx rec k nd.kind a (if ug then .optional else m) env st).map fun r =>
-        let r := afterBody cx i a act st.cur r
-        let r := { r with raw := Ev.start i (cx.rep st.cur) :: r.raw }
-        bracket cx i a m st (guardRestore (if ug then .required else .optional) st.cur r)
+    (match (cx.actOf env i nd).wrap with
+     | .none => nodeCore cx rec k i nd a m env st
+     | .changeAction fam => rec i a m { env with fam := fam } st
+     | .disableAction => nodeCore cx rec k i nd .nothing m env st
+     | .enableAction => nodeCore cx rec k i nd .action m env st
+     | .limitDepth n => limitDepthCall cx (nodeCore cx rec k i nd a m env) n st
+     | .limitBytes n => limitBytesCall cx (nodeCore cx rec k i nd a m env) n st).map (bracket cx i a m st)
 
 /-- The matcher with fuel. -/
 def run (cx : Ctx) (fuel : Nat) (i : Nat) (a : AMode) (m : RMode) (env : Env) (st : St) : Out :=
